@@ -34,6 +34,8 @@ class Gen:
         tags = {k: r.choice(TAG_VALS) for k in r.sample(TAG_KEYS[:3], r.choice([0, 1, 1, 2, 3]))}
         if r.random() < 0.15:
             tags["bad"] = "1"
+        if r.random() < 0.08:
+            tags["a.b"] = r.choice(["dotted", "x"])           # a key with a dot in it: "tags.a.b" names THIS key, not the key "a"
         enc = (self.profile.get("storage_kwargs") or {}).get("encoding")
         if enc and r.random() < 0.5:
             # text outside ASCII (inside the configured encoding): a file written in another encoding than it is read in shows here
@@ -192,16 +194,16 @@ class Gen:
                 u["fields"] = ("call", r.choice([0, 2, 4, 6, 6] + ([1, 3, 5] if allow_raise else [])))
         if r.random() < 0.2:
             # ("bad" is a key whose name CONTAINS the keys "a" and "b": unsetting it - given as one string - must leave them alone)
-            u["unset_tags"] = r.sample(TAG_KEYS, r.choice([1, 1, 2]))
+            u["unset_tags"] = r.sample(TAG_KEYS + ["b*", "?", "[ab]", "a.b"], r.choice([1, 1, 2]))        # (a key is a key: "b*" names the key spelled b*, nothing else)
             u["unset_as_str"] = r.random() < 0.5
         if r.random() < 0.2:
-            u["unset_fields"] = r.sample(FIELD_KEYS + ["zz"], r.choice([1, 2]))
+            u["unset_fields"] = r.sample(FIELD_KEYS + ["zz", "*", "[ab]", "?"], r.choice([1, 2]))
             u["unset_as_str"] = u.get("unset_as_str", r.random() < 0.5)
         return u
 
     def selkeys(self):
         r = self.r
-        pool = ["time", "measurement"] + [f"tags.{k}" for k in TAG_KEYS[:3] + ["zz"]] + [f"fields.{k}" for k in FIELD_KEYS + ["zz"]]
+        pool = ["time", "measurement"] + [f"tags.{k}" for k in TAG_KEYS[:3] + ["zz", "a.b"]] + [f"fields.{k}" for k in FIELD_KEYS + ["zz", "a.b"]]
         c = r.random()
         if c < 0.12:
             # a key that is not "time" / "measurement" / "tags.<key>" / "fields.<key>" with a non-empty <key>: ValueError
@@ -337,7 +339,7 @@ class Gen:
         r = self.r
         obs = [("index_valid",), ("iter",)]
         k = r.choice(["ooo_batch", "carriers", "bad_batch", "stale_handle", "torn_update", "handle_times", "linebreaks", "zones",
-                      "remove_first", "ooo_then_remove", "nested_not", "reset_then_time", "nan_fields", "epoch", "sparse_write", "sparse_write", "future_untimed", "range_ends", "getter_memo", "handle_sorted", "odd_strings", "shared_maps", "hash_twins", "same_count", "redate", "fold_twins", "big_ties", "handle_unset", "same_row_twice"])
+                      "remove_first", "ooo_then_remove", "nested_not", "reset_then_time", "nan_fields", "epoch", "sparse_write", "sparse_write", "future_untimed", "range_ends", "noop_compose", "substring_names", "same_size", "getter_memo", "handle_sorted", "odd_strings", "shared_maps", "hash_twins", "same_count", "redate", "fold_twins", "big_ties", "handle_unset", "same_row_twice"])
         pref = self.profile.get("scenario_pref")
         if pref and r.random() < 0.5:
             k = r.choice(pref)
@@ -670,7 +672,7 @@ class Gen:
                     ("count", ("not", fv(">", 0)), None), ("get_field_values", "v", None), ("remove", fv(">=", 1), None)] + obs + [("count", fv("<", 1), None)]
         elif k == "epoch":
             # the newest stored instant is EXACTLY 1970-01-01T00:00:00Z (POSIX timestamp 0.0), then earlier points arrive: zero is a time like any other
-            ops += [("insert", [self.point(-3 * SEC), self.point(-1 * SEC), self.point(0)], None, "multiple")] + obs
+            ops += [("insert", [self.point(-3 * SEC + r.choice([0, 250000, 1])), self.point(-1 * SEC - r.choice([0, 300001, 999999])), self.point(0)], None, "multiple")] + obs
             ops += [("insert", [self.point(-2 * SEC)], None), ("index_valid",)]            # (no second late insert here: it would invalidate the index and hide what the first did)
             tq = lambda c, x: ("S", "time", [], ("cmp", c, ("t", x)))
             ops += [("count", tq(">=", 0), None), ("count", tq("==", 0), None), ("count", tq("<", 0), None), ("search", tq("<", -1 * SEC), None, True),
@@ -720,6 +722,43 @@ class Gen:
                     ("insert", pts[2:], None, "multiple"), ("index_valid",), ("get_timestamps", None), ("get_timestamps", "m1"),
                     ("count", ("S", "time", [], ("cmp", "<", ("t", T0))), None), ("search", ("S", "time", [], ("user", 4)), None, True),
                     ("insert", [self.point(hi + 3600 * SEC + 5 * SEC)] if len(pts) == 5 else [self.point(T0 + 2 * SEC)], None), ("index_valid",), ("len",)]
+        elif k == "noop_compose":
+            # filters composed from a noop() base value (`q = noop(); q = q & cond`): noop on the LEFT of & and |, several such queries in a row with
+            # no write in between, then a write selected by one of them, then "not equal to an absent instant" (true of everything)
+            pts = self.points_batch(r.choice([5, 6, 8]), in_order=True)
+            for i, p in enumerate(pts):
+                p["tags"]["room"] = ["hall", "lab", "hall", "roof"][i % 4]
+            ops += [("insert", pts, None, "multiple")] + obs
+            rq = lambda v: ("S", "tags", [("k", "room")], ("cmp", "==", ("s", v)))
+            nz = lambda: ("noop", r.choice(["tags", "fields", "time", "meas"]))
+            far = ("S", "time", [], ("cmp", "!=", ("t", T0 - 777 * SEC)))
+            ops += [("count", ("and", nz(), rq("hall")), None), ("count", ("and", nz(), rq("lab")), None), ("search", ("and", nz(), rq("roof")), None, False),
+                    ("count", nz(), None), ("count", far, None), ("count", ("and", far, rq("hall")), None), ("count", far, None), ("count", ("or", nz(), rq("nope")), None),
+                    ("count", ("not", ("and", nz(), rq("lab"))), None)]
+            ops += [r.choice([("remove", ("and", nz(), rq("hall")), None), ("update", ("and", nz(), rq("lab")), {"tags": ("static", {"seen": "1"})}, None),
+                              ("remove", ("not", ("and", nz(), rq("lab"))), None)])] + obs + [("count", nz(), None), ("count", far, None), ("len",)]
+        elif k == "substring_names":
+            # measurement names of which one is a piece of another ("cpu", "cpu_load", "pu"): every filter and every handle means equality
+            names = ["cpu", "cpu_load", "pu", "cpu"]
+            pts = self.points_batch(r.choice([6, 8]), in_order=True)
+            for i, p in enumerate(pts):
+                p["meas"] = names[i % 4]
+                p["fields"]["v"] = i
+            ops += [("insert", pts, None, "multiple")] + obs
+            for name in r.sample(["cpu", "cpu_load", "pu", "load"], 3):
+                ops += [("handle", name, ("len",)), ("handle", name, ("count", ("noop", "tags"))), ("count", ("not", ("S", "fields", [("k", "v")], ("cmp", "<", ("n", 0)))), name),
+                        ("handle", name, ("get_field_values", "v")), ("get_timestamps", name), ("handle", name, ("search", ("S", "fields", [("k", "v"), ("m", 0)], ("cmp", ">=", ("n", 0))), False))]
+            name = r.choice(["cpu_load", "cpu", "pu"])
+            ops += [r.choice([("handle", name, ("update_all", {"tags": ("static", {"via": name})})), ("handle", name, ("remove_all",)), ("drop", name),
+                              ("handle", name, ("remove", ("not", ("S", "fields", [("k", "v")], ("cmp", "<", ("n", 0))))))])] + obs + [("get_measurements",), ("len",)]
+        elif k == "same_size":
+            # one long row goes, two short rows come whose text is together exactly as long: the file is back at a size it had before with another
+            # number of rows (a row of this shape is 32 characters plus its padding); the length is asked at every stage
+            mk = lambda i, pad: {"time": T0 + i * SEC, "meas": "m1", "tags": {"p": "x" * pad}, "fields": {}}
+            short = r.choice([3, 4, 7])
+            ops += [("insert", [mk(0, 9), mk(1, 32 + 2 * short), mk(2, 9)], None, "multiple"), ("len",), ("index_valid",),
+                    ("remove", ("S", "time", [], ("cmp", "==", ("t", T0 + 1 * SEC))), None), ("len",), ("insert", [mk(3, short)], None), ("len",), ("insert", [mk(4, short)], None), ("len",),
+                    ("handle", "m1", ("len",)), ("get_timestamps", None)]
         elif k == "shared_maps":
             # a batch of points built from ONE tags mapping and ONE fields mapping (the harness hands equal mappings of a batch over as one
             # object): updates of a subset, of all, unsets, and an update that fails part-way must treat every point as having its own
@@ -770,6 +809,9 @@ class Gen:
             ops += [("insert", pts, None, "multiple")] + obs
             ops += [("update", self.simple("time"), {"time": ("call", 5)}, None)] + obs
             ops += [("update_all", {"time": ("static", self.time())})] + obs + [("get_timestamps", None), ("search", self.simple("time"), None, True)]
+            # a new time AND a new measurement given by the same call, both as plain values
+            ops += [("update", self.simple("time"), {"time": ("static", self.time()), "meas": ("static", r.choice(["m3", "m1"]))}, None)] + obs + [("get_timestamps", None)]
+            ops += [("update_all", {"time": ("static", T0 + 77 * SEC), "meas": ("static", "moved")})] + obs + [("get_timestamps", "moved"), ("get_measurements",)]
         return ops
 
     def file_obs(self):
